@@ -85,6 +85,7 @@ class ScalaFront:
     """Parses one .scala source and translates selected defs / vals."""
 
     INT_TYPES = {'Int': 'Int', 'Call': 'Int', 'Boolean': 'Boolean'}
+    check_ret_loosely = False      # subclasses with abstract result types (Array[Double] ...) set this
 
     def __init__(self, src: str, fname: str):
         self.fname = fname
@@ -195,12 +196,17 @@ class ScalaFront:
         self.env: Dict[str, str] = {p[0]: p[1] for p in params}
         self.paren = 0
         body, ty = self._body()
-        if ret is not None and self.INT_TYPES.get(ret) != ty:
+        if ret is not None and self.INT_TYPES.get(ret, ret if self.check_ret_loosely else None) != ty and not (self.check_ret_loosely and ret not in self.INT_TYPES):
             raise ScalaUnsupported(f'{obj}.{name}', f'body has type {ty}, declared {ret}')
         d.params, d.ret, d.coq_name = params, ty, coq_name
         self.known[(obj, name, arity)] = d
-        ps = ' '.join(f'({p} : {"Z" if t == "Int" else "bool"})' for p, t, _ in params)
-        return f'Definition {coq_name} {ps} : option {"Z" if ty == "Int" else "bool"} :=\n  {body}.'
+        ps = ' '.join(f'({p} : {self.coq_ty(t)})' for p, t, _ in params)
+        return f'Definition {coq_name} {ps} : option {self.coq_ty(ty)} :=\n  {body}.'
+
+    COQ_TYPES = {'Int': 'Z', 'Boolean': 'bool'}
+
+    def coq_ty(self, t):
+        return self.COQ_TYPES[t]
 
     def translate_array_val(self, obj: str, name: str, coq_name: str) -> str:
         """`val name: Array[Int] = Array(e1, ..., en)` -> list (option Z) and its defined elements."""
@@ -398,6 +404,21 @@ class ScalaFront:
         if braces:
             self.expect('}', True)
 
+    def _skip_to_block_end(self):
+        """position the cursor at the `}` that closes the current block"""
+        depth = 0
+        while True:
+            t = self.toks[self.i]
+            if t[0] == 'eof':
+                raise ScalaUnsupported(self._where(), 'unbalanced braces')
+            if t[0] == 'op' and t[1] in '([{':
+                depth += 1
+            elif t[0] == 'op' and t[1] in ')]}':
+                if depth == 0:
+                    return
+                depth -= 1
+            self.i += 1
+
     FLOAT_IDIOM = '(Math.sqrt(8*i.toDouble+1)/2-0.5).toInt'
     COMPOUND = ('|=', '&=', '^=', '+=', '-=', '*=')
 
@@ -411,6 +432,8 @@ class ScalaFront:
             raise ScalaUnsupported(self._where(), 'compound assignment of non-Int')
         val, _ = self._apply_binop(op, (f'(ret {name})', 'Int'), (e, ty))
         return name, val
+
+    stop_after = None          # (val name, result text builder) - translate a prefix of a body: stop after `val name = ...`
 
     def _stmts(self):
         """returns (gallina text, type) of the statement sequence up to the closing brace"""
@@ -445,7 +468,11 @@ class ScalaFront:
             if declared is not None and self.INT_TYPES.get(declared) != ty:
                 raise ScalaUnsupported(self._where(), f'val {name}: {declared} initialised with {ty}')
             self.env[name] = ty
-            rest, rty = self._stmts()
+            if self.stop_after is not None and self.stop_after[0] == name:
+                rest, rty = self.stop_after[1](self.env)
+                self._skip_to_block_end()
+            else:
+                rest, rty = self._stmts()
             return f'bind {e} (fun {name} =>\n  {rest})', rty
         if tok[1] == 'if':
             # guard statement `if (c) fatal(..)` (no else) or an if-expression as the block result
@@ -554,6 +581,8 @@ class ScalaFront:
                 return f'(lift2 {arith[op]} {a} {b})', 'Int'
             if op == '/':
                 return f'(call2 i_div {a} {b})', 'Int'
+            if op == '%':
+                return f'(call2 i_rem {a} {b})', 'Int'
             if op in cmp_:
                 return f'(lift2 {cmp_[op]} {a} {b})', 'Boolean'
         if ta == 'Boolean' and tb == 'Boolean':
@@ -566,6 +595,9 @@ class ScalaFront:
                 return f'(lift2 {strict[op]} {a} {b})', 'Boolean'
             if op == '!=':
                 return f'(lift2 xorb {a} {b})', 'Boolean'
+        ext = self._binop_ext(op, left, right)
+        if ext is not None:
+            return ext
         raise ScalaUnsupported(self._where(), f'operator `{op}` on {ta},{tb}')
 
     def _unary(self):
@@ -642,7 +674,7 @@ class ScalaFront:
     def _postfix(self):
         tok = self.next(True)
         if tok[0] == 'num':
-            return f'(ret {self._int(tok)})', 'Int'
+            return self._number(tok)
         if tok[1] in ('true', 'false'):
             return f'(ret {tok[1]})', 'Boolean'
         if tok[1] == '(':
@@ -654,6 +686,9 @@ class ScalaFront:
         if tok[0] != 'id':
             raise ScalaUnsupported(f'{self.fname}:{tok[2]}', f'unexpected `{tok[1]}`')
         name = tok[1]
+        ext = self._postfix_ext(name)
+        if ext is not None:
+            return self._suffixes(ext)
         # qualified: Obj.f(args) | Obj(args) | local | f(args) in the current object | arr(i) | arr.length
         if name in self.env:
             return self._suffixes((f'(ret {name})', self.env[name]))
@@ -679,6 +714,19 @@ class ScalaFront:
             return self._suffixes((self.known_vals[(self.cur_obj, name)][0], 'Array[Int]'))
         raise ScalaUnsupported(f'{self.fname}:{tok[2]}', f'unknown name `{name}`')
 
+    def _number(self, tok):
+        return f'(ret {self._int(tok)})', 'Int'
+
+    # hooks for subclasses (return None when not applicable)
+    def _binop_ext(self, op, left, right):
+        return None
+
+    def _suffix_ext(self, text, ty, member):
+        return None
+
+    def _postfix_ext(self, name):
+        return None
+
     def _suffixes(self, e):
         text, ty = e
         while True:
@@ -699,6 +747,10 @@ class ScalaFront:
                     self.next()
                     self.next()
                     text, ty = f'(ret (Z.of_nat (length {text})))', 'Int'
+                    continue
+                ext = self._suffix_ext(text, ty, member)
+                if ext is not None:
+                    text, ty = ext
                     continue
                 raise ScalaUnsupported(self._where(), f'.{member} on {ty} outside the subset')
             if ty == 'Array[Int]':
